@@ -19,7 +19,9 @@ package datasource
 
 import (
 	"database/sql"
+	"fmt"
 	"reflect"
+	"strconv"
 )
 
 type nullTime = sql.NullTime
@@ -118,7 +120,21 @@ func DeepEqual(x, y interface{}) bool {
 	flx, okx := parseFloatIfOk(typx)
 	fly, oky := parseFloatIfOk(typy)
 	if okx && oky {
+		if typx.Kind() == reflect.Float32 || typy.Kind() == reflect.Float32 {
+			// a FLOAT column value has single precision on one side only
+			return float32(flx) == float32(fly)
+		}
 		return flx == fly
+	}
+	// DECIMAL arrives as a number in the image and as text from the driver
+	if okx != oky {
+		if okx {
+			if f, err := parseNumericText(typy); err == nil {
+				return flx == f
+			}
+		} else if f, err := parseNumericText(typx); err == nil {
+			return f == fly
+		}
 	}
 	// the same column content may arrive as string or as []byte
 	strx, okx := parseStringIfOk(typx)
@@ -152,4 +168,12 @@ func parseStringIfOk(val reflect.Value) (string, bool) {
 		}
 	}
 	return "", false
+}
+
+func parseNumericText(val reflect.Value) (float64, error) {
+	str, ok := parseStringIfOk(val)
+	if !ok {
+		return 0, fmt.Errorf("not a text value")
+	}
+	return strconv.ParseFloat(str, 64)
 }
